@@ -5,6 +5,13 @@
 //!   dfsx   <hist> <box> <limit>       `traverse_depth_first_node_with_stack` / `_and_context` with a visitor whose callback
 //!                                     answers `false` at the `limit`-th report (ExitEarly): ordered reports + returned flag
 //!   dfsxp  <hist> <box> <limit>       the same predicate through `traverse_depth_first_parallel` on 1/2/8/all threads (oracle only)
+//! round fu4:
+//!   mixq   <k> {<cut> <box> <point>}^k <hist>   one LONG history (>= 200 operations in the thorough tier) with `k` checkpoints:
+//!                                     after operation number `cut` the tree is queried with `intersect_aabb(box)` (ordered ids)
+//!                                     and the history goes on.  The update workspace is SHARED with a second, unrelated tree
+//!                                     that is updated (insert / refit / rebalance / remove) between the operations: the
+//!                                     workspace is scratch space, stale contents of another tree must not matter.
+//!   mixb   (same arguments)           at every checkpoint `traverse_best_first` with the point-distance visitor (oracle only)
 use super::*;
 use std::sync::atomic::{AtomicUsize, Ordering};
 use crate::p3::partitioning::NodeIndex;
@@ -31,14 +38,44 @@ impl<'a> SimdVisitorWithContext<u32, SimdAabb, u32> for LimitCtxVisitor<'a> {
 }
 
 /// replays a history like `replay_cur`, calling `after(tree, current boxes, op)` after every operation; `false` on panic
-fn replay_each(a: &mut Args, mut after: impl FnMut(&Qbvh<u32>, &[Aabb], &str)) -> bool {
+fn replay_each(a: &mut Args, after: impl FnMut(&Qbvh<u32>, &[Aabb], &str)) -> bool { replay_each_ws(a, false, after) }
+
+/// the unrelated tree that shares the workspace: one deterministic update round per call (grows to 37 leaves, then
+/// shrinks and is rebuilt), leaving its own stale entries in every workspace vector
+struct Foreign { q: Qbvh<u32>, cur: Vec<Aabb>, round: usize }
+impl Foreign {
+    fn new() -> Self { Foreign { q: Qbvh::new(), cur: Vec::new(), round: 0 } }
+    fn bx(k: usize) -> Aabb {
+        let c = d3::Point::new(((k * 7) % 11) as f64 * 3.0 - 15.0, ((k * 5) % 13) as f64 * 2.0 - 13.0, (k % 3) as f64);
+        Aabb::new(c, c + d3::Vector::new(1.0 + (k % 4) as f64 * 0.5, 1.0, 2.0))
+    }
+    fn round(&mut self, ws: &mut QbvhUpdateWorkspace) {
+        let k = self.round; self.round += 1;
+        let id = k % 37;
+        if self.cur.len() <= id { self.cur.resize(id + 1, Aabb::new_invalid()); }
+        self.cur[id] = Self::bx(k);
+        self.q.pre_update_or_insert(id as u32);
+        if k % 5 == 4 { let _ = self.q.remove(((k * 3) % 37) as u32); }
+        let c = &self.cur;
+        let _ = self.q.refit(0.125, ws, |d: &u32| c.get(*d as usize).copied().unwrap_or_else(Aabb::new_invalid));
+        if k % 3 == 2 { self.q.rebalance(0.125, ws); }
+        if k % 41 == 40 { let items: Vec<(u32, Aabb)> = (0..9usize).map(|i| (i as u32, Self::bx(i + k))).collect();
+                          for (i, b) in &items { self.cur[*i as usize] = *b; }
+                          self.q.clear_and_rebuild(items.into_iter(), 0.0); }
+    }
+}
+
+/// `stale = true`: before every `refit` / `rebalance` of the history the shared workspace is used by the foreign tree
+fn replay_each_ws(a: &mut Args, stale: bool, mut after: impl FnMut(&Qbvh<u32>, &[Aabb], &str)) -> bool {
     let nops = a.u();
     let mut q: Qbvh<u32> = Qbvh::new();
     let mut ws = QbvhUpdateWorkspace::default();
     let mut cur: Vec<Aabb> = Vec::new();
+    let mut foreign = Foreign::new();
     for _ in 0..nops {
         let op = a.tok().to_string();
         let r = catch_unwind(AssertUnwindSafe(|| {
+            if stale && (op == "F" || op == "B") { foreign.round(&mut ws); }
             match op.as_str() {
                 "I" => { let id = a.u(); let b = rd_box(a);
                          if cur.len() <= id { cur.resize(id + 1, Aabb::new_invalid()); }
@@ -59,6 +96,37 @@ fn replay_each(a: &mut Args, mut after: impl FnMut(&Qbvh<u32>, &[Aabb], &str)) -
         after(&q, &cur, &op);
     }
     true
+}
+
+/// `mixq` / `mixb`: replay with checkpoints (see the module documentation)
+fn mix_run(isq: bool, a: &mut Args) -> String {
+    let k = a.u();
+    let mut cps: Vec<(usize, Aabb, Point<Real>)> = Vec::new();
+    for _ in 0..k { let cut = a.u(); let qb = rd_box(a); let pt = d3::p(a); cps.push((cut, qb, pt)); }
+    let mut segs: Vec<String> = Vec::new();
+    let mut n = 0usize;
+    let ok = replay_each_ws(a, true, |q, cur, _op| {
+        n += 1;
+        for (cut, qb, pt) in &cps {
+            if *cut != n { continue; }
+            let r = catch_unwind(AssertUnwindSafe(|| {
+                if isq {
+                    let mut out = Vec::new();
+                    q.intersect_aabb(qb, &mut out);
+                    { let mut t = vec!["q".to_string()]; t.extend(out.iter().map(|x| x.to_string())); t.push(";".into()); t.join(" ") }
+                } else {
+                    let mut v = BfVisitor { p: *pt, cur };
+                    match q.traverse_best_first(&mut v) {
+                        None => "b none ;".to_string(),
+                        Some((_, id)) => { let c = cur.get(id as usize).map(|b| dist2(pt, b)).unwrap_or(f64::NAN); format!("b {} {} ;", ff(c), id) }
+                    }
+                }
+            }));
+            segs.push(r.unwrap_or_else(|_| "PANIC ;".into()));
+        }
+    });
+    if !ok { segs.push("PANIC ;".into()); }
+    segs.join(" ")
 }
 
 fn fbox(b: &Aabb) -> String { box6(b).iter().map(|x| cf(*x)).collect::<Vec<_>>().join(" ") }
@@ -174,6 +242,17 @@ pub fn exec(func: &str, a: &mut Args) -> String {
             }));
             r.unwrap_or_else(|_| "PANIC".into())
         }
+        "mixq" | "mixb" => {
+            // the replay runs on a watchdog thread: a hang of the real code (never seen on the unchanged tree; a corrupted
+            // tree can make `refit` or a traversal loop forever) is reported as `PANIC hang` after 30 s instead of stalling the run
+            let toks: String = a.t[a.i..].join(" ");
+            a.i = a.t.len();
+            let isq = func == "mixq";
+            let (tx, rx) = std::sync::mpsc::channel();
+            let th = std::thread::Builder::new().stack_size(64 << 20).spawn(move || { let mut a = Args::new(&toks); let _ = tx.send(mix_run(isq, &mut a)); });
+            if th.is_err() { return "PANIC spawn ;".into(); }
+            match rx.recv_timeout(std::time::Duration::from_secs(30)) { Ok(s) => s, Err(_) => "PANIC hang ;".into() }
+        }
         _ => "nofn".into(),
     }
 }
@@ -255,8 +334,104 @@ fn gen_bvtt_lanes(r: &mut Rng, thorough: bool, it: usize) -> (String, String) {
     ("bvttall".to_string(), format!("{} {} 0", h1.args(), h2.args()))
 }
 
+/// One long history of at least `nops` operations that cycles through phases — grow (fresh ids), move (existing leaves
+/// change their boxes), shrink, drain (down to the last leaf and the empty tree: root collapse), rebuild from a subset
+/// (`clear_and_rebuild` after removes), mixed — and settles (`refit(margin)`, half of the time followed by `rebalance`)
+/// after every phase; 1..3 checkpoints (query box + query point against the leaves live at that moment) after every settle.
+fn long_mixed_history(r: &mut Rng, nops: usize, lat: bool) -> (Hist, Vec<(usize, Aabb, Point<Real>)>, [usize; 6]) {
+    let nids = *r.pick(&[6usize, 20, 40, 64, 96]);
+    let fam = r.below(6);
+    let mut h = Hist::new(nids);
+    let mut cps: Vec<(usize, Aabb, Point<Real>)> = Vec::new();
+    let mut phases = [0usize; 6];
+    let bx = |r: &mut Rng| { let f = if fam == 5 { r.below(5) } else { fam }; gen_box(r, f, lat) };
+    while h.ops.len() < nops {
+        let phase = if h.ops.is_empty() { 0 } else { r.below(6) as usize };
+        phases[phase] += 1;
+        let len = 4 + r.below(24) as usize;
+        for _ in 0..len {
+            let live: Vec<usize> = (0..nids).filter(|i| h.live[*i]).collect();
+            let dead: Vec<usize> = (0..nids).filter(|i| !h.live[*i]).collect();
+            match phase {
+                0 => { let id = if !dead.is_empty() { *r.pick(&dead) } else { r.below(nids as u64) as usize }; let b = bx(r); h.ins(id, b); }
+                1 => { if live.is_empty() { let b = bx(r); h.ins(0, b); } else { let id = *r.pick(&live); let b = moved(r, &h.boxes[id].clone(), lat); h.ins(id, b); } }
+                2 => { if live.is_empty() { break; } let id = *r.pick(&live); h.rem(id); }
+                3 => { if live.is_empty() { break; } for id in live { h.rem(id); if r.below(9) == 0 { let m = gen_margin(r, lat); h.refit(m); } } break; }
+                4 => { for id in live.iter().take(live.len() / 3) { h.rem(*id); }
+                       let mut ids: Vec<usize> = (0..nids).collect();
+                       for i in 0..ids.len() { let j = i + r.below((ids.len() - i) as u64) as usize; ids.swap(i, j); }
+                       let n = r.below(nids as u64 + 1) as usize;
+                       let items: Vec<(usize, Aabb)> = ids[..n].iter().map(|i| (*i, bx(r))).collect();
+                       h.rebuild(&items, *r.pick(&[0.0, 0.0, 0.01, 0.25])); break; }
+                _ => { let c = r.below(10);
+                       if c < 4 || live.is_empty() { let id = r.below(nids as u64) as usize; let b = bx(r); h.ins(id, b); }
+                       else if c < 7 { let id = *r.pick(&live); let b = moved(r, &h.boxes[id].clone(), lat); h.ins(id, b); }
+                       else { let id = r.below(nids as u64 + 2) as usize; if id < nids { h.rem(id) } else { h.ops.push(format!("R {}", id)) } } }
+            }
+        }
+        let m = gen_margin(r, lat); h.refit(m);
+        if r.bool() { h.rebalance(m); }
+        for _ in 0..1 + r.below(3) {
+            let qb = query_box(r, &h, lat);
+            let live: Vec<usize> = (0..nids).filter(|i| h.live[*i]).collect();
+            let pt = if live.is_empty() || r.below(3) == 0 { d3::gen_p(r, lat, 50.0) } else { let b = h.boxes[*r.pick(&live)]; if r.bool() { b.center() } else { b.maxs + d3::gen_v(r, lat, 2.0) } };
+            cps.push((h.ops.len(), qb, pt));
+        }
+    }
+    (h, cps, phases)
+}
+
+/// histories in which `rebalance` is ALSO called with updates pending (no `refit` before it): the documentation promises
+/// nothing about the boxes then, but the structure must stay valid whatever the flags and the dirty list
+/// (`rebalance_preserves_inv` holds for every call); compared bit for bit with the model, structural oracle
+fn pending_rebalance_history(r: &mut Rng, maxops: usize, lat: bool) -> (String, String) {
+    let nids = *r.pick(&[6usize, 17, 40, 64]);
+    let fam = r.below(6);
+    let nops = 8 + r.below(maxops as u64) as usize;
+    let mut h = Hist::new(nids);
+    let bx = |r: &mut Rng| { let f = if fam == 5 { r.below(5) } else { fam }; gen_box(r, f, lat) };
+    let grow = r.below(nops as u64 / 2 + 1) as usize;
+    while h.ops.len() < nops {
+        let live: Vec<usize> = (0..nids).filter(|i| h.live[*i]).collect();
+        let c = r.below(100);
+        if h.ops.len() < grow || c < 40 { let id = r.below(nids as u64) as usize; let b = bx(r); h.ins(id, b); }
+        else if c < 55 && !live.is_empty() { let id = *r.pick(&live); let b = moved(r, &h.boxes[id].clone(), lat); h.ins(id, b); }
+        else if c < 72 { let id = r.below(nids as u64) as usize; h.rem(id); }
+        else if c < 84 { let m = gen_margin(r, lat); h.rebalance(m); }            // pending updates
+        else if c < 94 { let m = gen_margin(r, lat); h.refit(m); if r.bool() { h.rebalance(m); } }
+        else { let n = r.below(nids as u64 + 1) as usize;
+               let items: Vec<(usize, Aabb)> = (0..n).map(|i| ((i * 5) % nids, bx(r))).collect::<std::collections::BTreeMap<usize, Aabb>>().into_iter().collect();
+               h.rebuild(&items, 0.0); }
+    }
+    let m = gen_margin(r, lat); h.refit(m);
+    h.finish()
+}
+
+fn gen_mix(r: &mut Rng, thorough: bool, it: usize) -> (String, String) {
+    let lat = it % 2 == 0;
+    let nops = if thorough { 200 + r.below(120) as usize } else { 50 + r.below(50) as usize };
+    let (h, cps, _) = long_mixed_history(r, nops, lat);
+    let mut s = format!("{}", cps.len());
+    for (cut, qb, pt) in &cps { s += &format!(" {} {} {}", cut, hb(qb), d3::hp(pt)); }
+    ((if it % 3 == 2 { "mixb" } else { "mixq" }).to_string(), format!("{} {}", s, h.args()))
+}
+
 pub fn gen(r: &mut Rng, thorough: bool) -> Vec<(String, String)> {
     let mut v = Vec::new();
+    // long mixed histories with interleaved queries and a shared (stale) workspace
+    let nm = if thorough { 60 } else { 24 };
+    for it in 0..nm { v.push(gen_mix(r, thorough, it)); }
+    // the code's own validator after every operation, and the accessors at the end, of long mixed histories
+    let nl = if thorough { 12 } else { 4 };
+    for it in 0..nl {
+        let nops = if thorough { 200 + r.below(100) as usize } else { 50 + r.below(40) as usize };
+        let (mut h, _, _) = long_mixed_history(r, nops, it % 2 == 0);
+        if !h.ops.last().map(|o| o.starts_with("F ")).unwrap_or(false) { let m = gen_margin(r, it % 2 == 0); h.refit(m); }
+        v.push(((if it % 2 == 0 { "topo" } else { "acc" }).to_string(), h.args()));
+    }
+    // rebalance with pending updates (structure only)
+    let np = if thorough { 200 } else { 40 };
+    for it in 0..np { v.push(pending_rebalance_history(r, if thorough { 150 } else { 50 }, it % 2 == 0)); }
     // the code's own validator after every operation of every history family
     let nt = if thorough { 300 } else { 90 };
     for it in 0..nt {
